@@ -615,13 +615,13 @@ pub fn any_emsg<const S: usize, const V: usize, const M: usize>(version: u8) -> 
         message_data: m.to_vec(),
     }
 }
-/// emsg whose scheme_id_uri starts with a two-byte UTF-8 character (bytes != chars) followed by
-/// one symbolic ASCII byte; value = one symbolic ASCII byte; M message bytes.
+/// emsg whose strings are concrete and not ASCII-only (bytes != chars): scheme_id_uri = "\u{e9}a"
+/// (3 bytes, 2 chars), value = "b"; every other field and the M message bytes symbolic. Concrete
+/// strings keep string handling (CStr, UTF-8 validation, any char counting) constant-foldable.
 pub fn any_emsg_utf8<const M: usize>(version: u8) -> EmsgBox {
-    let mut v = any_emsg::<0, 1, M>(version);
-    let a: u8 = kani::any();
-    kani::assume(a >= 1 && a < 0x80);
-    v.scheme_id_uri = unsafe { String::from_utf8_unchecked(vec![0xC3, 0xA9, a]) };
+    let mut v = any_emsg::<0, 0, M>(version);
+    v.scheme_id_uri = String::from("\u{e9}a");
+    v.value = String::from("b");
     v
 }
 
@@ -1191,7 +1191,12 @@ pub fn ref_mvex(v: &MvexBox, out: &mut [u8]) -> usize {
 }
 /// traf: tfhd (+ tfdt) (+ trun with N samples carrying sizes and durations)
 pub fn any_traf<const N: usize>(tfdt: Option<u8>, trun: bool) -> TrafBox {
-    TrafBox { tfhd: any_tfhd(0x08), tfdt: tfdt.map(any_tfdt), trun: if trun { Some(any_trun::<N>(0x301)) } else { None } }
+    // concrete tfhd flags inside containers: with symbolic information bits the decoder's
+    // `flags & 0x01 > 0` tests are undecided for symbolic execution, the cursor position after
+    // tfhd becomes symbolic and every later child is read at a symbolic position
+    let mut tfhd = any_tfhd(0x08);
+    tfhd.flags = 0x08;
+    TrafBox { tfhd, tfdt: tfdt.map(any_tfdt), trun: if trun { Some(any_trun::<N>(0x301)) } else { None } }
 }
 pub fn ref_traf_w(v: &TrafBox, w: &mut RefW) {
     let s = w.begin(b"traf");
